@@ -173,6 +173,41 @@ func boundsJSON(minlat, minlon, maxlat, maxlon float64) string {
 
 const geohashAlphabet = "0123456789bcdefghjkmnpqrstuvwxyz"
 
+// geohashOf encodes a position with the given number of characters (standard algorithm).
+func geohashOf(lat, lon float64, n int) string {
+	latR, lonR := [2]float64{-90, 90}, [2]float64{-180, 180}
+	var out []byte
+	even, bit, ch := true, 0, 0
+	for len(out) < n {
+		if even {
+			mid := (lonR[0] + lonR[1]) / 2
+			if lon >= mid {
+				ch = ch<<1 | 1
+				lonR[0] = mid
+			} else {
+				ch <<= 1
+				lonR[1] = mid
+			}
+		} else {
+			mid := (latR[0] + latR[1]) / 2
+			if lat >= mid {
+				ch = ch<<1 | 1
+				latR[0] = mid
+			} else {
+				ch <<= 1
+				latR[1] = mid
+			}
+		}
+		even = !even
+		bit++
+		if bit == 5 {
+			out = append(out, geohashAlphabet[ch])
+			bit, ch = 0, 0
+		}
+	}
+	return string(out)
+}
+
 // geohashCell decodes a geohash to its bounding box (standard algorithm).
 func geohashCell(h string) (cell [4]float64, ok bool) {
 	lat := [2]float64{-90, 90}
